@@ -45,9 +45,19 @@ HShapes == {
 \* role it could play -- object and link, item and collection -- doubles its work per level: exponential in a 2 kB input)
 Chain(a, b, style, n) == [j |-> "chain", a |-> a, b |-> b, style |-> style, n |-> n]
 ChainStyles == {"typed", "typeless", "href", "link"}
-ChainTermsQuick == {"object", "url", "preview", "attachment", "tag", "items", "replies", "first"}
-ChainTermsAll == ChainTermsQuick \cup {"orderedItems", "actor", "inReplyTo", "icon", "oneOf", "describes", "subject", "partOf", "instrument"}
+ItemTermsOf(g) == {Props(g)[i].t : i \in {j \in 1..Len(Props(g)) : Props(g)[j].k \in {"item", "items"}}}
+AllItemTerms == UNION {ItemTermsOf(g) : g \in GoTypes}
+ChainPairTermsQuick == {"object", "url", "preview", "attachment", "tag", "items", "replies", "first"}
+ChainPairTermsAll == ChainPairTermsQuick \cup {"orderedItems", "actor", "inReplyTo", "icon", "oneOf", "describes", "subject", "partOf", "instrument", "shares", "inbox"}
+\* every item-valued term of the vocabulary nested in itself, and all ordered pairs of a smaller set
+ChainPairs(tier) == {<<t, t>> : t \in AllItemTerms} \cup (LET S == IF tier = "thorough" THEN ChainPairTermsAll ELSE ChainPairTermsQuick IN S \X S)
 ChainDepth == 60
+
+\* wide documents: one list with thousands of members (distinct IRIs, small objects with ids, small id-less objects); the cost
+\* of decoding must stay proportional to the length -- a per-member scan of what was read so far is quadratic
+Wide(kind, n) == [j |-> "wide", kind |-> kind, n |-> n]
+WideShapes == {<<"wide-iri", Wide("iri", 6000)>>, <<"wide-obj", Wide("obj", 3000)>>, <<"wide-idless", Wide("idless", 3000)>>}
+WideTerms == {"to", "cc", "tag", "attachment", "items", "orderedItems", "oneOf", "object", "audience", "url"}
 
 TermsOf(g) == Terms(Props(g)) \cup {t \o "Map" : t \in {"name", "summary", "content"}} \cup {"@context", "zzz-unknown"}
 BaseMembers(g) == <<Mem("id", JStr(IdOf(g, 1))), Mem("type", JStr(DefaultType(g)))>>
@@ -105,10 +115,12 @@ CellTypes == IF Tier = "model" THEN {"Object", "Question", "Link", "OrderedColle
 Cells == UNION {{[g |-> g, t |-> t, shape |-> s[1], nest |-> n, base |-> "min"] : t \in TermsOf(g), s \in HShapes, n \in NestFor(g)} : g \in CellTypes}
          \cup UNION {{[g |-> g, t |-> t, shape |-> s, nest |-> n, base |-> "rich"] : t \in TermsOf(g), s \in RichShapes, n \in (IF Tier = "thorough" THEN Nestings ELSE {"top"})} : g \in CellTypes}
          \cup {[g |-> "top", t |-> "document", shape |-> s[1], nest |-> "top", base |-> "min"] : s \in HShapes}
+         \cup UNION {{[g |-> g, t |-> t, shape |-> ws[1], nest |-> "top", base |-> "min"] : t \in WideTerms \cap Terms(Props(g)), ws \in WideShapes}
+                      : g \in (IF Tier = "thorough" THEN CellTypes ELSE CellTypes \cap {"Object", "Activity", "OrderedCollection", "Question", "Link"})}
+         \cup {[g |-> "top", t |-> "document", shape |-> ws[1], nest |-> "top", base |-> "min"] : ws \in WideShapes}
          \cup (IF Tier = "model" THEN {} ELSE
-               {[g |-> "chain", t |-> a \o "/" \o b, shape |-> st, nest |-> "top", base |-> "min"] :
-                  a \in (IF Tier = "thorough" THEN ChainTermsAll ELSE ChainTermsQuick), b \in (IF Tier = "thorough" THEN ChainTermsAll ELSE ChainTermsQuick), st \in ChainStyles})
-ShapeNode(name) == (CHOOSE s \in HShapes : s[1] = name)[2]
+               {[g |-> "chain", t |-> pr[1] \o "/" \o pr[2], shape |-> st, nest |-> "top", base |-> "min"] : pr \in ChainPairs(Tier), st \in ChainStyles})
+ShapeNode(name) == (CHOOSE s \in HShapes \cup WideShapes : s[1] = name)[2]
 SplitAt(t) == CHOOSE i \in 1..Len(t) : SubSeq(t, i, i) = "/"
 DocOf(c) == IF c.g = "top" THEN ShapeNode(c.shape)
             ELSE IF c.g = "chain" THEN Chain(SubSeq(c.t, 1, SplitAt(c.t) - 1), SubSeq(c.t, SplitAt(c.t) + 1, Len(c.t)), c.shape, ChainDepth)
